@@ -86,6 +86,13 @@ class FakeWriter:
     def write(self, data):
         s = self.sess
         name = _tname()
+        if name == "probe":
+            # the probe sent after the session proper: a writer the client has closed drops what is written to it
+            if self.closed:
+                s.probe_dropped += 1
+            else:
+                s.probelog.append((self.wid, bytes(data)))
+            return
         if not name.startswith("send"):
             s.ev(["cfg", self.wid, bytes(data).hex()])
             self._last, self._lastname = {"w": "ok", "d": "ret"}, name
@@ -104,6 +111,8 @@ class FakeWriter:
     async def drain(self):
         s = self.sess
         name = _tname()
+        if name == "probe" and self.closed:
+            raise ConnectionResetError("Connection lost")      # what StreamWriter.drain() does on a closing transport
         if not name.startswith("send"):
             return
         i = int(name[4:])
@@ -169,6 +178,8 @@ class Session:
         self.wscript = spec.get("wscript", [])
         self.pending_drain = {}
         self.bytelog = []
+        self.probelog = []
+        self.probe_dropped = 0
         self.readers = []
         self.writers = []
         self.refuse = int(spec.get("refuse", 0))
@@ -445,6 +456,31 @@ async def _tx_session(spec, sess):
         "consumer_alive": not client._process_queue_task.done(),
     }
     sess.ev(["end"])
+    if spec.get("probe") and spec.get("close_after") is None:
+        # afterwards: one more valid message on whatever connection the client says it has
+        pm = load_msg(spec["probe"])
+        before = {"state": client.state.name, "nopen": sess.nopen, "nev": len(sess.events),
+                  "writer": sess.writers.index(client.writer) if client.writer in sess.writers else None,
+                  "writer_closed": bool(getattr(client.writer, "closed", False))}
+        encoded = []
+
+        def enc_probe(m):
+            r = real_enc(m)
+            encoded.append([bytes(p).hex() for p in r])
+            return r
+
+        client._encode_impl = enc_probe
+        t = asyncio.create_task(client.send(pm), name="probe")
+        exc = None
+        try:
+            await t
+        except Exception as e:  # noqa: BLE001
+            exc = type(e).__name__
+        await asyncio.sleep(50.0)
+        final["probe"] = {"before": before, "encoded": encoded[0] if encoded else None, "exc": exc,
+                          "written": [[w, b.hex()] for w, b in sess.probelog], "dropped": sess.probe_dropped,
+                          "state_after": client.state.name, "nopen_after": sess.nopen,
+                          "status_after": [e[1] for e in sess.events[before["nev"]:] if e[0] == "status"]}
     await client.close()
     return {"events": sess.events, "bytelog": [[w, i, b.hex()] for (w, i, b) in sess.bytelog], "final": final}
 
